@@ -236,7 +236,7 @@ Resolve1(t) ==
                               THEN [pc |-> "I_CreateRes", op |-> [t.op EXCEPT !.todo = DOMAIN t.op.tgtman, !.uerr = FALSE]]
                               ELSE KStart(t.op, "install", [r \in t.op.adopted |-> t.op.tgtman[r]], t.op.tgtman, t.op.u.takeown)
     [] t.pc = "I_Fail"     -> IFail(t.op)
-    [] t.pc = "U_Apply"    -> KStart(t.op, "upgrade", t.op.curman, t.op.tgtman, FALSE)
+    [] t.pc = "U_Apply"    -> KStart(t.op, "upgrade", t.op.curman, t.op.tgtman, t.op.u.takeown)
     [] t.pc = "R_Apply"    -> KStart(t.op, "rollback", t.op.curman, t.op.tgtman, FALSE)
     [] t.pc = "R_HookFail" -> REnd([t.op EXCEPT !.kf = @ \cup {"L3"}], "err")              \* returns without recording: stays pending-rollback (L3)
     [] t.pc = "X_HookFail" -> XEnd(t.op, "err")
